@@ -8,26 +8,36 @@ KINDS_THOROUGH = KINDS_QUICK + [("DualVec", 1, 1), ("DualVec", 3, 1), ("Dual2Vec
                                 ("HyperDualVec", 2, 2)]
 
 
+# nested types: (outer kind, N, M, inner kind) -- the outer level is instantiated over the inner one (Calc.tla, Inner)
+NESTED_QUICK = [("Dual2", 1, 1, "Dual")]
+NESTED_THOROUGH = NESTED_QUICK + [("Dual", 1, 1, "Dual"), ("Dual3", 1, 1, "Dual"), ("HyperDual", 1, 1, "Dual"), ("Dual", 1, 1, "Dual2"),
+                                  ("Dual2", 1, 1, "Dual2"), ("HHD", 1, 1, "Dual"), ("DualVec", 2, 1, "Dual"),
+                                  ("Dual2Vec", 2, 1, "Dual")]
+
+
 def tla_set(items):
     return "{" + ", ".join('"%s"' % i for i in sorted(items)) + "}"
 
 
-def machine_cfg(kind, n, m, depth, mode, ops_def, mant=53, nr=2, props=True, loadset="LoadSetGeneric"):
+INNER = {None: "InnerF", "Dual": "InnerDual", "Dual2": "InnerDual2", "Dual3": "InnerDual3", "HyperDual": "InnerHyperDual"}
+
+
+def machine_cfg(kind, n, m, depth, mode, ops_def, mant=53, nr=2, props=True, loadset="LoadSetGeneric", inner=None):
     if isinstance(props, (list, tuple)):
         plist = list(props)
     else:
         plist = ["ReTransparent", "AbsentIsZero"] if props else []
     return cfg(spec=("SpecSim" if mode == "sim" else "Spec"), constants={"Kind": kind, "N": n, "M": m, "NR": nr, "Depth": depth, "Mode": mode, "Mant": mant},
-               overrides={"LoadSet": loadset, "ReGrid": "ReGridSmall", "PartGrid": "PartGridSmall",
+               overrides={"Inner": INNER[inner], "LoadSet": loadset, "ReGrid": "ReGridSmall", "PartGrid": "PartGridSmall",
                           "ScalarGrid": "ScalarGridSmall", "PowSet": "PowSetSmall", "OpFilter": ops_def},
                invariants=["Emit"], properties=plist,
                view="View")
 
 
 def machine_run(kind, n, m, ops_def, depth=3, mode="bfs", mant=53, nr=2, workers=3, simulate=None, tag="",
-                timeout=900, props=True, loadset="LoadSetGeneric"):
-    name = "mach_%s_%d_%d_%s_%d%s" % (kind, n, m, mode, mant, tag)
-    return run_tlc("Machine.tla", machine_cfg(kind, n, m, depth, mode, ops_def, mant, nr, props, loadset), name,
+                timeout=900, props=True, loadset="LoadSetGeneric", inner=None):
+    name = "mach_%s%s_%d_%d_%s_%d%s" % (kind, "_in_" + inner if inner else "", n, m, mode, mant, tag)
+    return run_tlc("Machine.tla", machine_cfg(kind, n, m, depth, mode, ops_def, mant, nr, props, loadset, inner), name,
                    workers=workers, simulate=simulate, depth=(depth + 1 if simulate else None), timeout=timeout)
 
 
@@ -129,7 +139,7 @@ KEY_OF = {  # (kind, n, m) -> concrete configurations to record traces from
 
 
 def trace_cfg(kind, n, m, nr, mant):
-    return cfg(constants={"Kind": kind, "N": n, "M": m, "NR": nr, "Mant": mant}, invariants=["Done"],
+    return cfg(constants={"Kind": kind, "N": n, "M": m, "NR": nr, "Mant": mant}, overrides={"Inner": "InnerF"}, invariants=["Done"],
                postcondition="Accepted")
 
 
